@@ -169,6 +169,14 @@ int32_t psCheckValidationResult(ssl_t *ssl,
 
     while (cert)
     {
+        if (ssl->err != SSL_ALERT_NONE &&
+            ssl->err != SSL_ALERT_CERTIFICATE_EXPIRED)
+        {
+            /* Same rule as for TLS 1.2 and below: the first alert is the
+               one to report, except that an expiry never hides another
+               failure of the chain from the application callback. */
+            break;
+        }
         switch (cert->authStatus)
         {
         case PS_CERT_AUTH_FAIL_SIG:
